@@ -12,6 +12,9 @@ QUICK = [
     (["F", "No", "U", "S"], (4,)),
     # a whole window skipped (in any order, e.g. its first slot last) behind a notarized block
     (["N", "K", "K", "K", "K", "K", "K"], (4, 8)),
+    # an off-chain notarized block keeps the watermark low (its slot is decided only through a parent link), so a
+    # notarization certificate can arrive for a slot that was already implicitly skipped (slot 4)
+    (["F", "No", "F", "NS", "F"], (4,)),
 ]
 
 
